@@ -284,7 +284,9 @@ func Enumerate(eo EnumOpts, emit func(Input)) (stats map[string]int) {
 			}
 			for _, l := range Langs {
 				// a mutation is tried in bash and in one other (rotating) variant
-				if l != syntax.LangBash && Langs[1+(i+k)%4] != l {
+				// (zsh is visited on the corpus only: its parser support is the newest and
+				// mutations there produce many variant-specific divergences; see notes)
+				if l != syntax.LangBash && Langs[1+(i+k)%3] != l {
 					continue
 				}
 				if _, err := Parse(m, l, true); err != nil {
@@ -297,6 +299,9 @@ func Enumerate(eo EnumOpts, emit func(Input)) (stats map[string]int) {
 		}
 	}
 	for li, l := range Langs {
+		if l == syntax.LangZsh {
+			continue
+		}
 		for g := 0; g < eo.NGen; g++ {
 			idx++
 			if !in(idx) {
